@@ -11,7 +11,7 @@ import ast
 from ..astutil import calls, const, kw, parent_map, short
 from ..backends import backend_paths, reachable
 from ..dasksites import NAN_TEXTS, Site, eval_in_scope, kernel_footprint, radius_ok, sites_in, expanded_sites
-from ..kai import Arr
+from ..kai import Arr, interpret
 from ..program import AnalysisIncomplete, BackendTable, Ext, Func, Partial, norm
 from ..sym import App, Rat, Sym, subst
 
@@ -122,6 +122,8 @@ def check_site(prog, rep, entry, site, np_funcs, kind, np_path=None):
         rep.add('H0', f, entry, 'block function %s' % kern.qualname, site.call.lineno, ok,
                 'the function mapped over blocks must be the very function the numpy path runs (numpy path reaches: %s)'
                 % sorted({g.qualname for g in np_funcs})[:8])
+    from ..dasksites import check_declared_type
+    check_declared_type(rep, 'H8', site, entry)
     pb, npos = site.partial_bindings()
     if kind == SAME and any(kern is g for g in np_funcs) and not kern.vararg and not kern.kwarg:
         # ---- H0-bind: the same parameters of the shared kernel receive a value on both paths (one left to its default on
@@ -136,8 +138,12 @@ def check_site(prog, rep, entry, site, np_funcs, kind, np_path=None):
             if g is kern:
                 continue
             for c in calls(g.node):
-                if c not in g.own_nodes() or any(isinstance(a_, ast.Starred) for a_ in c.args) or any(k_.arg is None for k_ in c.keywords):
+                if c not in g.own_nodes() or any(isinstance(a_, ast.Starred) for a_ in c.args):
                     continue
+                from ..dasksites import _keywords as _kw_expand
+                ckw = _kw_expand(g, c)          # `**opts` of a local dict(...) spelled out
+                if any(k_.arg is None for k_ in c.keywords) and len(ckw) == len([k_ for k_ in c.keywords if k_.arg]):
+                    continue                    # a `**` that cannot be spelled out
                 t_ = prog.resolve_callable(g, g.module, c.func)
                 pre_ = set()
                 n0 = 0
@@ -146,7 +152,7 @@ def check_site(prog, rep, entry, site, np_funcs, kind, np_path=None):
                     n0 += len(t_.args)
                     t_ = t_.target
                 if t_ is kern:
-                    b_ = set(kern.params[:n0 + len(c.args)]) | {k_.arg for k_ in c.keywords} | pre_
+                    b_ = set(kern.params[:n0 + len(c.args)]) | set(ckw) | pre_
                     np_bound = b_ if np_bound is None else (np_bound & b_)
         if np_bound is None and np_path is not None and np_path.func() is kern and not any(isinstance(a_, ast.Starred) for a_ in np_path.args):
             # the kernel is itself the numpy entry of the dispatch table: bound by the dispatch call
@@ -558,7 +564,7 @@ def check_pipe(prog, rep, entry, f_np, f_da):
                     'the per-block kernel of the dask pipeline must be the kernel the numpy pipeline calls')
 
 
-def check_pipe_args(prog, rep, entry, pub, f_np, f_da):
+def check_pipe_args(prog, rep, entry, pub, f_np, f_da, scalars_only=False):
     """H0-args (sibling pipelines): the arguments that reach a kernel shared by the numpy and the dask pipeline are the same
     terms over the public parameters on both paths - up to the dask wrappers and the np / da namespaces.  The wrapper terms
     are taken from the public function with the dispatch followed into either backend."""
@@ -595,6 +601,7 @@ def check_pipe_args(prog, rep, entry, pub, f_np, f_da):
         # arithmetic atoms carry their term as text: compare printed forms with the namespaces mapped
         return tshow(norm_ns(unwrap_dask(t)), 100000).replace('dask.array.', 'numpy.').replace("'da.", "'np.")
     got = {}
+    scalar_params = {}
     for be in ('numpy', 'dask'):
         w = WT(prog, depth=6, backend=be, keep=shared)
         w.noserial = True
@@ -616,7 +623,8 @@ def check_pipe_args(prog, rep, entry, pub, f_np, f_da):
             nm = str(c.name)
             if nm.endswith('partial') and c.args and c.args[0][0] == 'global':
                 partials[tkey(c.result)] = (c.args[0][1], c.args[1:], dict(c.kwargs))
-            if nm.endswith(('map_blocks', 'map_overlap')) and c.args:
+            meth = isinstance(c.callee, tuple) and len(c.callee) == 3 and c.callee[0] == 'method' and c.callee[2] in ('map_blocks', 'map_overlap')
+            if (nm.endswith(('map_blocks', 'map_overlap')) or meth) and c.args:
                 fn = c.args[0]
                 extra, pkw = (), {}
                 if tkey(fn) in partials:
@@ -626,10 +634,22 @@ def check_pipe_args(prog, rep, entry, pub, f_np, f_da):
                     if g is not None:
                         kws_ = dict(pkw)
                         kws_.update({k_: v_ for k_, v_ in c.kwargs.items() if k_ not in DASK_KW})
-                        args.setdefault(g.qualname, []).append(by_param(g, extra + tuple(c.args[1:]), kws_))
+                        args.setdefault(g.qualname, []).append(by_param(g, extra + ((c.callee[1],) if meth else ()) + tuple(c.args[1:]), kws_))
+                        if be == 'dask':
+                            scalar_params.setdefault(g.qualname, set()).update(k_ for k_ in kws_ if k_ in g.params + g.kwonly)
         got[be] = args
     for q in sorted(set(got['numpy']) & set(got['dask'])):
         a, b = sorted(set(got['numpy'][q])), sorted(set(got['dask'][q]))
+        if scalars_only:
+            # only the parameters the dask path binds by keyword (partial / map_blocks keywords): the scalars that go with the
+            # raster - cell sizes, weights, thresholds.  The raster arguments legitimately differ (casts, halos).
+            keep_ = scalar_params.get(q, set())
+            if not keep_:
+                continue
+            a = sorted({tuple(x for x in t_ if x[0] in keep_) for t_ in a})
+            b = sorted({tuple(x for x in t_ if x[0] in keep_) for t_ in b})
+            if not all(a) or not all(b):
+                continue
         ok = a == b
         diff = ''
         if not ok:
@@ -641,7 +661,7 @@ def check_pipe_args(prog, rep, entry, pub, f_np, f_da):
                         break
                 if diff:
                     break
-        rep.add('H0-args', f_da, entry, 'arguments of the shared kernel %s on the numpy and the dask pipeline' % q, f_da.node.lineno, ok,
+        rep.add('H0-args' if not scalars_only else 'H0-scalars', f_da, entry, '%s of the shared kernel %s on the numpy and the dask pipeline' % ('arguments' if not scalars_only else 'scalar arguments %s' % sorted(scalar_params.get(q, [])), q), f_da.node.lineno, ok,
                 'sibling pipelines must hand their shared kernel the same quantities (coordinate grids, ranges, permutation tables) '
                 'in the same roles; ' + diff)
 
@@ -740,6 +760,44 @@ def check_H6(prog, rep, entry, f_np, f_da):
 
 
 # ------------------------------------------------------------------------------------------- driver
+def check_H7(prog, rep, entry, pub, sites, np_funcs, da_funcs):
+    """H7 - working precision.  When the kernel shared by both paths allocates its result like its input (`zeros_like(data)`
+    without a dtype), the result's dtype and precision follow whatever the path hands it: a narrowing cast of the raster on
+    the dask-only part of the path (`data.astype(np.float32)` before map_overlap) that the numpy-only part does not make
+    gives float32 results on dask and float64 on numpy."""
+    NARROW = ('np.float32', "'f4'", "'float32'", 'numpy.float32', 'np.float16', "'f2'")
+    for s_ in sites:
+        kern = s_.kernel()
+        if kern is None or kern.jit is None or not any(kern is h for h in np_funcs):
+            continue
+        try:
+            k = interpret(prog, kern, strict=False)
+        except AnalysisIncomplete:
+            continue
+        outs = [v for v, g in k.returns if isinstance(v, Arr)]
+        follows = [o for o in outs if isinstance(o.dtype, tuple) and o.dtype and o.dtype[0] == 'like' and o.dtype[1] in kern.params and
+                   getattr(o.like, 'cast_of', None) is None and getattr(o.like, 'init', None) == 'param']      # not like a cast of it
+        if not follows:
+            continue
+
+        def narrowing(funcs):
+            out = []
+            for g in funcs:
+                if g.jit is not None or g.is_lambda:
+                    continue
+                for n in g.own_nodes():
+                    if isinstance(n, ast.Call) and isinstance(n.func, ast.Attribute) and n.func.attr == 'astype' and n.args and norm(n.args[0]) in NARROW:
+                        out.append((g, n))
+            return out
+        da_only = narrowing([g for g in da_funcs if not any(g is h for h in np_funcs)])
+        np_only = narrowing([g for g in np_funcs if not any(g is h for h in da_funcs)])
+        bad = da_only if not np_only else []
+        rep.add('H7', pub, entry, 'result of %s follows its input\'s dtype; narrowing casts: numpy path %d, dask path %d' % (
+            kern.qualname, len(np_only), len(da_only)), (bad[0][1].lineno if bad else pub.node.lineno), not bad,
+            'the kernel allocates its result like its input, so both paths must hand it the raster in the same precision: %s narrows '
+            'it on the dask path only' % (norm(bad[0][1])[:80] if bad else ''))
+
+
 def check(prog, rep):
     from ..sharedrules import FloatProv, check_validate_arrays
     FLOATPROV[0] = FloatProv(prog)
@@ -780,17 +838,24 @@ def check(prog, rep):
         nred += check_H4(prog, rep, entry, f_da, ex_da, np_funcs)
         if kind == PIPE:
             check_pipe(prog, rep, entry, f_np, f_da)
+            if fname not in ('perlin', 'generate_terrain'):
+                check_pipe_args(prog, rep, entry, pub, f_np, f_da, scalars_only=True)
             if fname in ('perlin', 'generate_terrain'):
                 # generators build their inputs (coordinate grids, permutation tables) from scalars on either path: those
                 # must be the same terms; pipelines that transform a raster legitimately differ between the backends
                 check_pipe_args(prog, rep, entry, pub, f_np, f_da)
+        if kind == SAME:
+            check_pipe_args(prog, rep, entry, pub, f_np, f_da, scalars_only=True)
         if kind == MODULE:
             rep.add('H0', pub, entry, 'numpy path %s / dask path %s' % (f_np.qualname, f_da.qualname), pub.node.lineno,
                     f_np is f_da, 'module-parametrised op: both paths must run the same function')
         if fname in ('perlin', 'generate_terrain'):
             check_H6(prog, rep, entry, f_np, f_da)
+        check_H7(prog, rep, entry, pub, sites, np_funcs, da_funcs)
     rep.coverage_extra['partition_sites'] = nsites
     rep.coverage_extra['global_reductions'] = nred
+    rep.floor('H7', 1)
+    rep.floor('H0-scalars', 8)
     rep.floor('H-site', 25)
     rep.floor('H1', 16)
     rep.floor('H2', 8)
